@@ -261,6 +261,11 @@ class Intervals:
         # a write kills the knowledge about the written place and its fields
         for k in [k for k in st if k[0] == lhs[0] and (not lhs[1] or k[1][:len(key[1])] == key[1])]:
             del st[k]
+        self.kill_eq(st, lhs[0])
+        if not lhs[1] and rv["k"] == "use" and rv["op"]["k"] != "const" and not rv["op"]["p"][1] and ty_range(self.tys[lhs[0]]) is not None:
+            src = rv["op"]["p"][0]
+            if src != lhs[0] and src not in self.addr_taken and lhs[0] not in self.addr_taken:
+                st[("eq", lhs[0])] = st.get(("eq", src), src)
         if tup is not None:
             r, ov = tup
             if r is not None:
@@ -273,11 +278,26 @@ class Intervals:
         if iv is not None and self.rng_of_key(key) is not None:
             st[key] = iv
 
+    def kill_eq(self, st, l):
+        for k in [k for k, v in st.items() if k[0] == "eq" and (k[1] == l or v == l)]:
+            del st[k]
+
+    def same_as(self, st, l):
+        """locals known to hold the same value as l in state st"""
+        root = st.get(("eq", l), l)
+        out = {l, root}
+        for k, v in st.items():
+            if k[0] == "eq" and v == root:
+                out.add(k[1])
+        return out
+
     def call(self, st, t):
         dest = t.get("dest")
         argiv = [self.op_iv(st, a) for a in t["args"]]
         for k in [k for k in st if k[0] in self.addr_taken]:
             del st[k]
+        if dest:
+            self.kill_eq(st, dest[0])
         if not dest or dest[1]:
             return
         for k in [k for k in st if k[0] == dest[0]]:
@@ -376,8 +396,8 @@ class Intervals:
                 if k is not None and self.rng_of_key(k) is not None:
                     st[k] = meet(self.get(st, k), new)
                 return
-            for l in self._aliases(b, None, o["p"][0]):
-                if ty_range(self.tys[l]) is not None:
+            for l in set(self._aliases(b, None, o["p"][0])) | self.same_as(st, o["p"][0]):
+                if ty_range(self.tys[l]) is not None and l not in self.addr_taken:
                     cur = self.get(st, (l, ()))
                     st[(l, ())] = meet(cur, new) if cur else new
         A = (ia[0], ia[1], ia[2], ia[3])
@@ -522,6 +542,10 @@ class Intervals:
         out = {}
         for k in set(old) & set(new):
             a, c = old[k], new[k]
+            if k[0] == "eq":
+                if a == c:
+                    out[k] = a
+                continue
             h = _hull(a, c)
             if widen and h[:2] != a[:2]:
                 rng = self.rng_of_key(k)
@@ -644,9 +668,9 @@ def obligations(fn, ivs=None):
             # two variables may be related (table monotonicity, a <= b by construction): only a constant
             # operand makes the interval verdict exact enough to alarm
             v = "exceeds" if (ai[0] and ci[1] and (ia[0] == ia[1] or ic[0] == ic[1])) else "unknown"
-        out.append(dict(kind="sub", desc=desc, b=b, ln=ln, verdict=v, detail=f"{fmt(ia)} - {fmt(ic)}"))
+        out.append(dict(kind="sub", desc=desc, b=b, ln=ln, verdict=v, detail=f"{fmt(ia)} - {fmt(ic)}", ops=[op_local(a["o"]), op_local(c["o"])]))
 
-    def shift_check(amount, bits, aty, desc, b, ln):
+    def shift_check(amount, bits, aty, desc, b, ln, aop=None):
         ic = amount
         if ic is None:
             out.append(dict(kind="shift-upper", desc=desc, b=b, ln=ln, verdict="unknown", detail="amount is not a tracked scalar"))
@@ -654,7 +678,7 @@ def obligations(fn, ivs=None):
         info = _bound_info(ic, aty)
         up = "proved" if ic[1] < bits else ("exceeds" if info[1] else "unknown")
         lo = "proved" if ic[0] >= 0 else ("exceeds" if info[0] else "unknown")
-        out.append(dict(kind="shift-upper", desc=desc, b=b, ln=ln, verdict=up, detail=f"amount {fmt(ic)}, width {bits}"))
+        out.append(dict(kind="shift-upper", desc=desc, b=b, ln=ln, verdict=up, detail=f"amount {fmt(ic)}, width {bits}", ops=[aop]))
         if lo != "proved":
             out.append(dict(kind="shift-lower", desc=desc, b=b, ln=ln, verdict=lo, detail=f"amount {fmt(ic)}"))
 
@@ -677,7 +701,7 @@ def obligations(fn, ivs=None):
                 ty = iv.op_ty(rv["a"])
                 if st is None or ty not in INT_BITS:
                     continue
-                shift_check(iv.op_iv(st, rv["b"]), INT_BITS[ty], iv.op_ty(rv["b"]), f"{rv['op'][:3]}({opdesc(rv['a'])},{opdesc(rv['b'])})", b, s.get("ln"))
+                shift_check(iv.op_iv(st, rv["b"]), INT_BITS[ty], iv.op_ty(rv["b"]), f"{rv['op'][:3]}({opdesc(rv['a'])},{opdesc(rv['b'])})", b, s.get("ln"), op_local(rv["b"]))
         t = blk["term"]
         if t["k"] == "call":
             nm = t["callee"].rsplit("::", 1)[-1]
@@ -685,7 +709,7 @@ def obligations(fn, ivs=None):
             if m and m.group(1) in INT_BITS and nm in ("wrapping_shr", "wrapping_shl", "unchecked_shl", "unchecked_shr") and t["args"][1]["k"] != "const":
                 st = iv.before_term(b)
                 if st is not None:
-                    shift_check(iv.op_iv(st, t["args"][1]), INT_BITS[m.group(1)], iv.op_ty(t["args"][1]), f"{nm}({opdesc(t['args'][0])},{opdesc(t['args'][1])})", b, t.get("ln"))
+                    shift_check(iv.op_iv(st, t["args"][1]), INT_BITS[m.group(1)], iv.op_ty(t["args"][1]), f"{nm}({opdesc(t['args'][0])},{opdesc(t['args'][1])})", b, t.get("ln"), op_local(t["args"][1]))
         if t["k"] == "assert":
             kind = str(t["msg"]).split("(")[0]
             if kind not in ("BoundsCheck", "DivisionByZero", "RemainderByZero"):
@@ -700,12 +724,14 @@ def obligations(fn, ivs=None):
             desc = kind
             detail = ""
             v = "unknown"
+            ops = []
             if kind == "BoundsCheck" and cd and cd[0] == "Lt":
                 ii, il = iv.op_iv(st, cd[1]), iv.op_iv(st, cd[2])
                 desc = f"BoundsCheck({opdesc(cd[1])}<{opdesc(cd[2]) if cd[2]['k'] == 'const' or (il and il[0] == il[1]) else 'len'})"
                 if il and il[0] == il[1]:
                     desc = f"BoundsCheck({opdesc(cd[1])}<{il[0]})"
                 detail = f"index {fmt(ii)}, length {fmt(il)}"
+                ops = [op_local(cd[1])]
                 if ii and il:
                     if ii[1] < il[0]:
                         v = "proved"
@@ -713,5 +739,31 @@ def obligations(fn, ivs=None):
                         v = "exceeds"
             elif c and c[:2] == (want, want):
                 v = "proved"
-            out.append(dict(kind=kind, desc=desc, b=b, ln=t.get("ln"), verdict=v, detail=detail))
+            out.append(dict(kind=kind, desc=desc, b=b, ln=t.get("ln"), verdict=v, detail=detail, ops=ops))
     return out
+
+
+def guard_present(fn, b, locals_):
+    """structural fallback for a check the intervals cannot decide: is the site control-dependent on a branch
+    whose condition is computed from the same values (a guard written in an idiom the engine does not model)?"""
+    from .analysis import backward_slice
+    want = set()
+    for l in locals_:
+        if l is not None:
+            sl, _ = backward_slice(fn, [l])
+            want |= set(sl)
+    if not want:
+        return False
+    for bb, t in fn.terms():
+        if t["k"] != "switch" or bb == b or not fn.dominates(bb, b):
+            continue
+        dl = op_local(t["discr"])
+        if dl is None:
+            continue
+        sl, _ = backward_slice(fn, [dl])
+        if not (set(sl) & want):
+            continue
+        tg = {x for _, x in t["targets"]} | {t["otherwise"]}
+        if len(tg) >= 2 and any(b not in fn.reachable_from(x) and x != b for x in tg):
+            return True
+    return False
